@@ -1,6 +1,758 @@
-"""Property oracles evaluated on the implementation's generator output (S-B).  Filled in per property."""
+"""Property oracles evaluated on the implementation's *generator* output (S-B): the API object is the
+ground truth, the stub files are parsed by the independent recogniser (stubparse), and each
+property's predicate — written from the property statement, not from the generator — is evaluated.
+A failure is reported through ctx.oracle_failure(property, what, replay); known findings are
+attributed there."""
 from __future__ import annotations
 
+import json
+import re
 
-def check(ctx, impl, label, safe, api, api_json, result, before, after) -> None:
-    pass
+import stubparse
+from stage_names import KEYWORDS33, spec_camel
+
+TODO_MSG = {
+    "no tuple support": "Safe-DS does not support tuple types.",
+    "no set support": "Safe-DS does not support set types.",
+    "List": "List type has to many type arguments.",
+    "Set": "Set type has to many type arguments.",
+    "OPT_POS_ONLY": "Safe-DS does not support optional but position only parameter assignments.",
+    "REQ_NAME_ONLY": "Safe-DS does not support required but name only parameter assignments.",
+    "multiple_inheritance": "Safe-DS does not support multiple inheritance.",
+    "variadic": "Safe-DS does not support variadic parameters.",
+    "class_method": "Safe-DS does not support class methods.",
+    "param without type": "Some parameter have no type information.",
+    "attr without type": "Attribute has no type information.",
+    "result without type": "Result type information missing.",
+    "internal class as type": "An internal class must not be used as a type in a public class.",
+    "unknown": "Unknown type - Type could not be parsed.",
+    "unknown value": "Unknown value - Value could not be parsed.",
+}
+MSG_KEY = {"// TODO " + v: k for k, v in TODO_MSG.items()}
+BUILTIN = {"int": "Int", "str": "String", "bool": "Boolean", "float": "Float", "None": "Nothing?"}
+
+
+def conv(name: str, safe: bool, cls: bool = False) -> str:
+    return spec_camel(name, cls) if safe and "." not in name else (name if not safe else ".".join(name.split(".")))
+
+
+def esc(n: str) -> str:
+    return f"`{n}`" if n in KEYWORDS33 else n
+
+
+# --------------------------------------------------------------------------- spec: types
+
+def is_none(t) -> bool:
+    return t["kind"] == "NamedType" and t["qname"] == "builtins.None"
+
+
+def lit_text(v) -> str:
+    if isinstance(v, str):
+        return f'"{v}"'
+    if isinstance(v, bool):
+        return "true" if v else "false"
+    if v is None:
+        return "null"
+    return f"{v}"
+
+
+def type_text(t, safe: bool) -> str:
+    """documented mapping API type -> Safe-DS type text (unions: sorted set, Nothing? last)"""
+    k = t["kind"]
+    if k == "NamedType":
+        return BUILTIN.get(t["name"], t["name"])
+    if k == "FinalType":
+        return type_text(t["type"], safe)
+    if k in ("ListType", "SetType", "NamedSequenceType"):
+        name = {"ListType": "List", "SetType": "Set"}.get(k) or t["name"]
+        args = [type_text(x, safe) for x in t["types"]]
+        return f"{name}<{', '.join(args) if args else 'Any'}>"
+    if k == "TupleType":
+        return "Tuple<" + ", ".join(type_text(x, safe) for x in t["types"]) + ">"
+    if k == "DictType":
+        return f"Map<{type_text(t['key_type'], safe)}, {type_text(t['value_type'], safe)}>"
+    if k == "LiteralType":
+        return "literal<" + ", ".join(lit_text(v) for v in t["literals"]) + ">"
+    if k == "TypeVarType":
+        return esc(conv(t["name"], safe))
+    if k == "UnknownType":
+        return "unknown"
+    if k == "CallableType":
+        ps = ", ".join(f"{conv('param_' + str(i + 1), safe)}: {type_text(p, safe)}" for i, p in enumerate(t["parameter_types"]))
+        r = t["return_type"]
+        if r["kind"] == "TupleType":
+            rs = "(" + ", ".join(f"{conv('result_' + str(i + 1), safe)}: {type_text(x, safe)}" for i, x in enumerate(r["types"])) + ")"
+        elif r["kind"] == "NamedType" and r["name"] == "None":
+            rs = "()"
+        else:
+            rs = f"{conv('result_1', safe)}: {type_text(r, safe)}"
+        return f"({ps}) -> {rs}"
+    if k == "UnionType":
+        ms = t["types"]
+        lits = [m for m in ms if m["kind"] == "LiteralType"]
+        others = [m for m in ms if m["kind"] != "LiteralType"]
+        all_lits = [v for m in lits for v in m["literals"]]
+        if lits and len(others) == 1 and is_none(others[0]) and (len(lits) >= 2 or len(ms) == 2):
+            return "literal<" + ", ".join(lit_text(v) for v in all_lits + [None]) + ">"
+        if len(lits) >= 2:
+            texts = [type_text(m, safe) for m in others] + ["literal<" + ", ".join(lit_text(v) for v in all_lits) + ">"]
+        else:
+            texts = [type_text(m, safe) for m in ms]
+        nullable_kind = any((m["kind"] in ("TupleType", "ListType", "SetType", "DictType"))
+                            or (m["kind"] == "NamedType" and not is_none(m)) for m in ms)
+        u = sorted(set(texts))
+        if not u:
+            return ""
+        if len(u) == 1:
+            return u[0]
+        if len(u) == 2 and "Nothing?" in u and nullable_kind:
+            return [x for x in u if x != "Nothing?"][0] + "?"
+        if "Nothing?" in u:
+            u = [x for x in u if x != "Nothing?"] + ["Nothing?"]
+        return "union<" + ", ".join(u) + ">"
+    return "<unrenderable>"
+
+
+def type_keys(t, top=True) -> set:
+    """C20: markers a type deserves"""
+    k = t["kind"]
+    out = set()
+    if k == "TupleType":
+        out.add("no tuple support")
+    if k == "SetType":
+        out.add("no set support")
+    if k in ("ListType", "SetType", "NamedSequenceType") and len(t["types"]) >= 2:
+        name = {"ListType": "List", "SetType": "Set"}.get(k) or t["name"]
+        if name in ("List", "Set"):
+            out.add(name)
+    if k == "UnknownType":
+        out.add("unknown")
+    for c in t.get("types", []) if k != "LiteralType" else []:
+        out |= type_keys(c)
+    if k == "DictType":
+        out |= type_keys(t["key_type"]) | type_keys(t["value_type"])
+    if k == "FinalType":
+        out |= type_keys(t["type"])
+    if k == "CallableType":
+        for p in t["parameter_types"]:
+            out |= type_keys(p)
+        r = t["return_type"]
+        if r["kind"] == "TupleType":
+            for x in r["types"]:
+                out |= type_keys(x)
+        else:
+            out |= type_keys(r)
+    return out
+
+
+def mentions_internal(t) -> bool:
+    k = t["kind"]
+    if k == "NamedType":
+        return t["name"].startswith("_")
+    subs = list(t.get("types", [])) if k != "LiteralType" else []
+    for key in ("key_type", "value_type", "type", "return_type"):
+        if isinstance(t.get(key), dict):
+            subs.append(t[key])
+    subs += t.get("parameter_types", [])
+    return any(mentions_internal(s) for s in subs)
+
+
+def renders_empty(t) -> bool:
+    return (t["kind"] == "UnionType" and not t["types"]) or (t["kind"] == "FinalType" and renders_empty(t["type"]))
+
+
+def canon_type_text(text: str) -> str:
+    """parse a type text with the recogniser and print it canonically (unions as sorted sets)"""
+    p = stubparse.Parser("package p\nfun f(x: " + text + ")")
+    f = p.file()
+    return stubparse.render_type(f.decls[0].params[0].type)
+
+
+# --------------------------------------------------------------------------- spec: parameters / results
+
+def default_text(p) -> str | None:
+    d = p["default"]
+    k = d["k"]
+    if k == "none":
+        return "null"
+    if k == "bool":
+        return "true" if d["v"] else "false"
+    if k == "unknown":
+        return "unknown"
+    if k == "str":
+        if p["assigned_by"] == "POSITIONAL_VARARG" and d["v"] == "()":
+            return "[]"
+        return d["v"]
+    return f"{d['v']}"
+
+
+def shown_type(p):
+    t = p["type"]
+    if t is not None and p["assigned_by"] == "POSITIONAL_VARARG" and t["kind"] == "TupleType":
+        return {"kind": "ListType", "types": t["types"]}
+    return t
+
+
+def param_keys(p) -> set:
+    out = set()
+    t = shown_type(p)
+    if t is None:
+        out.add("param without type")
+    else:
+        out |= type_keys(t)
+    if p["is_optional"] and p["default"]["k"] == "unknown" and p["type"] is not None:
+        out.add("unknown value")      # (an untyped optional parameter is outside the API invariant)
+    if p["assigned_by"] == "POSITION_ONLY" and p["is_optional"]:
+        out.add("OPT_POS_ONLY")
+    if p["assigned_by"] == "NAME_ONLY" and not p["is_optional"]:
+        out.add("REQ_NAME_ONLY")
+    if p["assigned_by"] in ("POSITIONAL_VARARG", "NAMED_VARARG"):
+        out.add("variadic")
+    return out
+
+
+def shown_results(f):
+    """(suppressed?, [(name, type)]) per the property: a None result means no results at all"""
+    rs = f["results"]
+    if any(r["type"] is not None and is_none(r["type"]) for r in rs):
+        return True, []
+    return False, [(r["name"], r["type"]) for r in rs if r["type"] is not None and not renders_empty(r["type"])]
+
+
+# --------------------------------------------------------------------------- API index
+
+class Index:
+    def __init__(self, j):
+        self.j = j
+        self.classes = {}
+        for c in j["classes"]:
+            self.classes[c["id"]] = c
+        self.modules = {m["id"]: m for m in j["modules"]}
+
+    def find_class(self, qname: str):
+        cid = qname.replace(".", "/")
+        if cid in self.classes:
+            return self.classes[cid]
+        for k, c in self.classes.items():
+            if k.endswith(cid):
+                return c
+        return None
+
+
+def private_ancestors(ix: Index, c, seen=None):
+    """private (underscore-named) ancestors reachable through private bases, DFS order"""
+    seen = seen if seen is not None else []
+    for s in c["superclasses"]:
+        if s.split(".")[-1].startswith("_"):
+            sc = ix.find_class(s)
+            if sc is not None and sc["id"] not in [x["id"] for x in seen]:
+                seen.append(sc)
+                private_ancestors(ix, sc, seen)
+    return seen
+
+
+def has_private_diamond(ix: Index, c) -> bool:
+    """two private bases at some inlining level (sibling bases do not share the set of defined names)"""
+    priv = [s for s in c["superclasses"] if s.split(".")[-1].startswith("_")]
+    if len(priv) >= 2:
+        return True
+    for s in priv:
+        sc = ix.find_class(s)
+        if sc is not None and has_private_diamond(ix, sc):
+            return True
+    return False
+
+
+# --------------------------------------------------------------------------- the checks
+
+def known_bad_keyword_positions(j) -> set:
+    """names that the generator is known not to escape (findings F02-*): package path segments, enum
+    names, class names referenced as types or superclasses, constructor type variables"""
+    out = set()
+    for m in j["modules"]:
+        out.update(m["id"].split("/"))
+        for e in m["enums"]:
+            out.add(e["name"])
+    def walk_t(t):
+        if t is None:
+            return
+        if t["kind"] == "NamedType":
+            out.add(t["name"])
+        if t["kind"] == "NamedSequenceType":
+            out.add(t["name"])
+        for x in (t.get("types", []) if t["kind"] != "LiteralType" else []):
+            walk_t(x)
+        for key in ("key_type", "value_type", "type", "return_type", "upper_bound"):
+            if isinstance(t.get(key), dict):
+                walk_t(t[key])
+        for x in t.get("parameter_types", []):
+            walk_t(x)
+    def walk_f(f):
+        for p in f["params"]:
+            walk_t(p["type"])
+        for r in f["results"]:
+            walk_t(r["type"])
+        for tv in f["type_vars"]:
+            walk_t(tv["upper_bound"])
+    def walk_c(c):
+        for s in c["superclasses"]:
+            out.add(s.split(".")[-1])
+            out.update(s.split("."))
+        out.add(c["name"])
+        if c["ctor"]:
+            walk_f(c["ctor"])
+            for tv in c["ctor"]["type_vars"]:
+                out.add(tv["name"])
+        for a in c["attributes"]:
+            walk_t(a["type"])
+        for tp in c["type_parameters"]:
+            walk_t(tp["type"])
+        for f in c["methods"]:
+            walk_f(f)
+        for k in c["classes"]:
+            walk_c(k)
+    for c in j["classes"]:
+        walk_c(c)
+    for m in j["modules"]:
+        for f in m["functions"]:
+            walk_f(f)
+    for kv in j["reexport_map"]:
+        for mod in kv["modules"]:
+            out.update(mod["id"].split("/"))
+    return {x for x in out if x in KEYWORDS33 or x == ""}
+
+
+def check(ctx, impl, label, safe, api, j, result, before, after) -> None:
+    base = {"stage": "S-B", "case": label, "safe": safe}
+    prop = ctx.prop
+    if result[0] != "ok":
+        if prop == "C01":
+            ctx.oracle_failure("C01", f"generator raised {result[1]} at {result[2]}", {**base, "exc": result[1], "site": result[2]})
+        return
+    _, stubs, outside, files = result
+    ix = Index(j)
+
+    # ---------------- C16: the API model is unchanged
+    if prop == "C16" and before != after:
+        ctx.oracle_failure("C16", "API.to_dict() differs before/after stub generation",
+                           {**base, "aliased_reexport": any(q["alias"] for kv in j["reexport_map"] for m in kv["modules"] for q in m["qualified_imports"])})
+
+    # ---------------- parse every file (C02) ----------------
+    parsed = {}
+    bad_kw = None
+    for path, text in files.items():
+        try:
+            parsed[path] = stubparse.parse(text)
+        except stubparse.StubSyntaxError as e:
+            if prop == "C02":
+                if bad_kw is None:
+                    bad_kw = sorted(known_bad_keyword_positions(j))
+                ctx.oracle_failure("C02", f"stub does not parse: {e.msg}", {**base, "path": path, "error": str(e),
+                                                                           "unescaped_positions": bad_kw})
+    if prop == "C02":
+        return
+    if prop in ("C20", "C06", "C07", "C05", "C17", "C03", "C04", "C13"):
+        check_members(ctx, prop, base, safe, ix, j, stubs, parsed, files)
+    if prop == "C10":
+        check_layout(ctx, base, safe, j, stubs, outside, parsed, files)
+    if prop == "C11":
+        check_refs(ctx, base, safe, j, parsed)
+
+
+# --------------------------------------------------------------------------- members of classes / modules
+
+def expected_fun_todos(f, is_method: bool, shown_tvs) -> set:
+    ks = set()
+    if f["is_class_method"]:
+        ks.add("class_method")
+    ps = f["params"]
+    ps = [p for p in ps if p["assigned_by"] != "IMPLICIT"]
+    for p in ps:
+        ks |= param_keys(p)
+    for tv in shown_tvs:
+        if tv["upper_bound"] is not None:
+            ks |= type_keys(tv["upper_bound"])
+    suppressed, shown = shown_results(f)
+    if not suppressed:
+        for _, t in [(r["name"], r["type"]) for r in f["results"] if r["type"] is not None]:
+            ks |= type_keys(t)
+        if not shown:
+            ks.add("result without type")
+    else:
+        for r in f["results"]:
+            if r["type"] is not None and is_none(r["type"]):
+                break
+            if r["type"] is not None:
+                ks |= type_keys(r["type"])
+    return ks
+
+
+def actual_todos(decl) -> tuple[set, list]:
+    keys, unknown = set(), []
+    for line in decl.todos:
+        k = MSG_KEY.get(line.strip())
+        if k is None:
+            unknown.append(line)
+        else:
+            keys.add(k)
+    return keys, unknown
+
+
+def fun_mentions_internal(f) -> bool:
+    ts = [p["type"] for p in f["params"]] + [r["type"] for r in f["results"]] + [tv["upper_bound"] for tv in f["type_vars"]]
+    return any(t is not None and mentions_internal(t) for t in ts)
+
+
+def compare_function(ctx, prop, base, safe, f, decl, is_method, where, class_generics_unknown=False):
+    rb = {**base, "function": f["id"], "where": where}
+    # ---- C06 parameters
+    if prop == "C06":
+        exp = [p for p in f["params"] if p["assigned_by"] != "IMPLICIT"]
+        got = decl.params or []
+        if len(exp) != len(got):
+            ctx.oracle_failure("C06", f"{len(got)} stub parameters for {len(exp)} Python parameters (receiver removed)",
+                               {**rb, "expected": [p["name"] for p in exp], "got": [p.name for p in got]})
+        else:
+            for p, g in zip(exp, got):
+                pyname = g.python_name if g.python_name is not None else g.name
+                if pyname != p["name"]:
+                    ctx.oracle_failure("C06", f"parameter {p['name']!r} appears as {pyname!r}", {**rb, "param": p["name"]})
+                want_opt = p["is_optional"]
+                if p["is_optional"] and p["type"] is None:
+                    ctx.rep.bump("oracle", "skipped_untyped_optional_parameter")   # outside the API invariant
+                elif (g.default is not None) != want_opt:
+                    ctx.oracle_failure("C06", f"parameter {p['name']!r}: optional in stub = {g.default is not None}, in API = {want_opt}",
+                                       {**rb, "param": p["name"], "typed": p["type"] is not None})
+                elif want_opt and g.default != default_text(p):
+                    ctx.oracle_failure("C06", f"parameter {p['name']!r}: default {g.default!r}, expected {default_text(p)!r}",
+                                       {**rb, "param": p["name"]})
+                if safe and g.python_name is None and conv(p["name"], True) != p["name"]:
+                    ctx.oracle_failure("C06", f"parameter {p['name']!r} renamed without @PythonName", {**rb, "param": p["name"]})
+    # ---- C05 types at parameter / result positions
+    if prop == "C05":
+        for p, g in zip([p for p in f["params"] if p["assigned_by"] != "IMPLICIT"], decl.params or []):
+            t = shown_type(p)
+            if t is None:
+                continue
+            want = type_text(t, safe)
+            got = stubparse.render_type(g.type)
+            try:
+                want_c = canon_type_text(want) if want else ""
+            except stubparse.StubSyntaxError:
+                continue          # the expected text itself is not parseable (C02's business)
+            if got != want_c:
+                ctx.oracle_failure("C05", f"parameter {p['name']!r}: type {got!r}, expected {want_c!r}", {**rb, "type": t})
+    # ---- C07 results
+    if prop in ("C07", "C05"):
+        suppressed, shown = shown_results(f)
+        got = decl.results
+        if prop == "C07":
+            if len(got) != len(shown):
+                ctx.oracle_failure("C07", f"{len(got)} results in stub, expected {len(shown)}"
+                                   + (" (a None result suppresses the list)" if suppressed else ""),
+                                   {**rb, "expected": [n for n, _ in shown], "got": [n for n, _ in got]})
+            else:
+                for (n, t), (gn, gt) in zip(shown, got):
+                    if gn != conv(n, safe):
+                        ctx.oracle_failure("C07", f"result {n!r} appears as {gn!r}", {**rb, "result": n})
+        if prop == "C05" and len(got) == len(shown):
+            for (n, t), (gn, gt) in zip(shown, got):
+                want = type_text(t, safe)
+                try:
+                    want_c = canon_type_text(want)
+                except stubparse.StubSyntaxError:
+                    continue
+                if stubparse.render_type(gt) != want_c:
+                    ctx.oracle_failure("C05", f"result {n!r}: type {stubparse.render_type(gt)!r}, expected {want_c!r}", {**rb, "type": t})
+    # ---- C20 markers
+    if prop == "C20":
+        got, unknown = actual_todos(decl)
+        for u in unknown:
+            ctx.oracle_failure("C20", f"unknown TODO line {u!r}", rb)
+        tvs = f["type_vars"]
+        exp_all = expected_fun_todos(f, is_method, tvs)
+        exp_min = expected_fun_todos(f, is_method, []) if is_method else exp_all
+        g = got - {"internal class as type"}
+        if fun_mentions_internal(f):
+            pass
+        elif "internal class as type" in got:
+            ctx.oracle_failure("C20", "marker 'internal class as type' on a function that mentions no underscore class", rb)
+        if not (exp_min <= g <= exp_all):
+            ctx.oracle_failure("C20", f"markers {sorted(g)} but features call for {sorted(exp_all)}",
+                               {**rb, "missing": sorted(exp_min - g), "extra": sorted(g - exp_all)})
+
+
+def stub_path(s) -> str:
+    d = [x for x in s["dir"].split("/") if x not in ("", ".")]
+    if s["pkg"]:
+        d = d[:-1]
+    return "/".join(d + [s["name"].lstrip("_") + ".sdsstub"])
+
+
+def sources_of(j, s):
+    """the API elements a stub file may legitimately contain, as {(kind, python name): element}.
+    Returns None when the file cannot be attributed unambiguously (then it is not judged)."""
+    out = {}
+    if not s["pkg"]:
+        mods = [m for m in j["modules"] if m["id"] == s["dir"] and m["name"] != "__init__"]
+        if not mods:
+            mods = [m for m in j["modules"] if m["name"] == s["name"]]
+        if len(mods) != 1:
+            return None
+        m = mods[0]
+        for f in m["functions"]:
+            out[("fun", f["name"])] = f
+        for c in m["classes"]:
+            out[("class", c["name"])] = c
+        for e in m["enums"]:
+            out[("enum", e["name"])] = e
+        return out
+    parent = "/".join([x for x in s["dir"].split("/") if x not in ("", ".")][:-1])
+    cands = []
+    for m in j["modules"]:
+        for kind, pool in (("fun", m["functions"]), ("class", m["classes"])):
+            for x in pool:
+                for rb in x["reexported_by"]:
+                    if rb["id"] != parent:
+                        continue
+                    aliases = {q["alias"] for q in rb["qualified_imports"] if q["alias"] and q["qualified_name"].endswith(x["name"])}
+                    if x["name"] == s["name"] or s["name"] in aliases:
+                        cands.append((kind, x))
+    if len(cands) != 1:
+        return None
+    kind, x = cands[0]
+    return {(kind, s["name"]): x}
+
+
+def check_members(ctx, prop, base, safe, ix, j, stubs, parsed, files):
+    """walk the stubs: every top-level declaration and every class member is matched with the API
+    element it stands for"""
+    by_path = {}
+    for s in stubs:
+        by_path.setdefault(stub_path(s), []).append(s)
+    for path, (sf, _) in parsed.items():
+        ss = by_path.get(path)
+        if not ss or len(ss) != 1:
+            continue                      # placeholder stub, or two stubs on one path (C10's business)
+        src = sources_of(j, ss[0])
+        if src is None:
+            ctx.rep.bump("oracle", "file_not_attributable")
+            continue
+        for d in sf.decls:
+            el = src.get((d.kind, d.pyname))
+            if el is None:
+                continue
+            ctx.rep.bump("oracle", "declarations_judged")
+            if d.kind == "fun":
+                compare_function(ctx, prop, base, safe, el, d, False, path)
+            elif d.kind == "class":
+                walk_class(ctx, prop, base, safe, ix, j, sf, d, el, path)
+
+
+def walk_class(ctx, prop, base, safe, ix, j, sf, d, c, path):
+    rb = {**base, "class": c["id"], "where": path}
+    anc = private_ancestors(ix, c)
+    diamond = has_private_diamond(ix, c)
+    abstract = "abc.ABC" in c["superclasses"]
+    # ---- constructor parameters (C06)
+    if prop in ("C06", "C05") and c["ctor"] is not None and not abstract and d.params is not None:
+        fake = type("D", (), {"params": d.params, "results": [], "todos": []})()
+        f = dict(c["ctor"])
+        f = {**f, "results": []}
+        if prop == "C06":
+            compare_function(ctx, "C06", base, safe, f, fake, True, path + ":constructor")
+        else:
+            compare_function(ctx, "C05", base, safe, f, fake, True, path + ":constructor")
+    # ---- class-level markers (C20)
+    if prop == "C20":
+        got, unknown = actual_todos(d)
+        exp = set()
+        if c["ctor"] is not None and not abstract:
+            for p in c["ctor"]["params"]:
+                if p["assigned_by"] != "IMPLICIT":
+                    exp |= param_keys(p)
+        for tp in c["type_parameters"]:
+            if tp["type"] is not None:
+                exp |= type_keys(tp["type"])
+        pub_supers = [s for s in c["superclasses"] if not s.split(".")[-1].startswith("_")]
+        if len(pub_supers) > 1 and not abstract:
+            exp.add("multiple_inheritance")
+        g = got - {"internal class as type"}
+        if g != exp:
+            ctx.oracle_failure("C20", f"class markers {sorted(g)} but features call for {sorted(exp)}",
+                               {**rb, "missing": sorted(exp - g), "extra": sorted(g - exp)})
+    # ---- members
+    own_methods = {f["name"]: f for f in c["methods"]}
+    own_attrs = {a["name"]: a for a in c["attributes"]}
+    inherited = {}
+    if not abstract:
+        for a in anc:
+            for f in a["methods"]:
+                if f["is_public"] or not f["name"].startswith("_"):
+                    inherited.setdefault(f["name"], []).append(f)
+    seen = {}
+    for mem in d.members:
+        nm = mem.pyname
+        seen[nm] = seen.get(nm, 0) + 1
+        if mem.kind == "class":
+            inner = next((k for k in c["classes"] if k["name"] == nm), None)
+            if inner is None:
+                for a in anc:
+                    inner = inner or next((k for k in a["classes"] if k["name"] == nm), None)
+            if inner is not None:
+                walk_class(ctx, prop, base, safe, ix, j, sf, mem, inner, path)
+            continue
+        if mem.kind == "fun":
+            f = own_methods.get(nm)
+            if f is None or not f["is_public"] or f["is_property"]:
+                cands = inherited.get(nm, [])
+                f = cands[0] if cands else f
+            if f is None:
+                if prop in ("C03", "C17"):
+                    ctx.oracle_failure(prop, f"method {nm!r} in the stub of {c['id']} has no source", rb)
+                continue
+            compare_function(ctx, prop, base, safe, f, mem, True, path)
+        if mem.kind == "attr":
+            a = own_attrs.get(nm)
+            if a is not None and prop == "C20":
+                got, _ = actual_todos(mem)
+                exp = set()
+                if a["type"] is None or renders_empty(a["type"]):
+                    exp.add("attr without type")
+                if a["type"] is not None:
+                    exp |= type_keys(a["type"])
+                g = got - {"internal class as type"}
+                if g != exp:
+                    ctx.oracle_failure("C20", f"attribute {nm!r}: markers {sorted(g)}, features call for {sorted(exp)}",
+                                       {**rb, "attribute": a["id"]})
+            if a is not None and prop == "C05" and a["type"] is not None:
+                want = type_text(a["type"], safe)
+                try:
+                    want_c = canon_type_text(want) if want else ""
+                except stubparse.StubSyntaxError:
+                    want_c = None
+                if want_c is not None and stubparse.render_type(mem.type) != want_c:
+                    ctx.oracle_failure("C05", f"attribute {nm!r}: type {stubparse.render_type(mem.type)!r}, expected {want_c!r}",
+                                       {**rb, "type": a["type"]})
+    # ---- C17 / C03 / C04: which members, how often
+    if prop in ("C17", "C03", "C04"):
+        exp_names = set()
+        for f in c["methods"]:
+            if f["is_public"]:
+                exp_names.add(f["name"])
+        for a in c["attributes"]:
+            if a["is_public"] and not (a["type"] is not None and a["type"]["kind"] == "TypeVarType"):
+                exp_names.add(a["name"])
+        inh_names = {n for n, fs in inherited.items() if any(not f["name"].startswith("_") for f in fs)}
+        for k in c["classes"]:
+            if k["is_public"]:
+                exp_names.add(k["name"])
+        if not abstract:
+            for a in anc:
+                for k in a["classes"]:
+                    if not k["name"].startswith("_"):
+                        inh_names.add(k["name"])
+        for n, cnt in seen.items():
+            if cnt > 1:
+                p = "C17" if n in inh_names else "C03"
+                if prop == p:
+                    ctx.oracle_failure(p, f"member {n!r} emitted {cnt} times in class {c['id']}",
+                                       {**rb, "member": n, "private_diamond": diamond, "inherited": n in inh_names})
+        if prop == "C03":
+            for n in exp_names - set(seen):
+                ctx.oracle_failure("C03", f"public member {n!r} of {c['id']} is missing from its stub", {**rb, "member": n})
+        if prop == "C17":
+            for n in inh_names - set(seen) - {x for x in own_attrs}:
+                ctx.oracle_failure("C17", f"inherited public member {n!r} of a private ancestor is missing in {c['id']}",
+                                   {**rb, "member": n, "private_diamond": diamond})
+            for s in d.supers:
+                sn = stubparse.render_type(s)
+                if sn.split(".")[-1].lstrip("`").startswith("_"):
+                    ctx.oracle_failure("C17", f"private class {sn!r} named in the sub clause of {c['id']}", rb)
+        if prop == "C04":
+            allowed = exp_names | inh_names
+            for n in set(seen) - allowed:
+                ctx.oracle_failure("C04", f"non-public member {n!r} appears in the stub of {c['id']}", {**rb, "member": n})
+
+
+# --------------------------------------------------------------------------- C10 layout
+
+def check_layout(ctx, base, safe, j, stubs, outside, parsed, files):
+    for path, (sf, _) in parsed.items():
+        parts = path.split("/")
+        dir_parts, fname = parts[:-1], parts[-1]
+        if ".." in parts or path.startswith("/"):
+            ctx.oracle_failure("C10", f"stub path {path!r} leaves the output directory", {**base, "path": path})
+        pm = sf.pymodule.split(".")
+        # directory = announced python module path, except that a module stub sits in a directory named
+        # after the module: <pkg path>/<module>/<module>.sdsstub announces <pkg path>.<module>
+        if dir_parts != pm:
+            ctx.oracle_failure("C10", f"stub at {path!r} announces python module {sf.pymodule!r}",
+                               {**base, "path": path, "announced": sf.pymodule})
+        if not fname.endswith(".sdsstub") or fname.startswith("_"):
+            ctx.oracle_failure("C10", f"stub file name {fname!r}", {**base, "path": path})
+    # two different texts for one path
+    seen = {}
+    for s in stubs:
+        d = [x for x in s["dir"].split("/") if x not in ("", ".")]
+        if s["pkg"]:
+            d = d[:-1]
+        p = "/".join(d + [s["name"].lstrip("_") + ".sdsstub"])
+        if p in seen and seen[p] != s["text"]:
+            ctx.oracle_failure("C10", f"two different stub texts written to {p!r}", {**base, "path": p, "names": [s["name"]]})
+        seen[p] = s["text"]
+    for cls in outside:
+        parts = cls.split(".")
+        if len(parts) >= 2:
+            p = "/".join(parts[:-1] + [parts[-2] + ".sdsstub"])
+            if p in seen:
+                ctx.oracle_failure("C10", f"placeholder for {cls!r} overwrites the module stub {p!r}", {**base, "path": p, "class": cls})
+
+
+# --------------------------------------------------------------------------- C11 references
+
+def check_refs(ctx, base, safe, j, parsed):
+    declared = {}       # package -> set of declared names
+    for path, (sf, _) in parsed.items():
+        s = declared.setdefault(sf.package, set())
+        for d in sf.decls:
+            s.add(d.name)
+    builtin = {"Int", "String", "Boolean", "Float", "Nothing", "Any", "List", "Map", "Set", "Tuple"}
+    for path, (sf, _) in parsed.items():
+        local = set()
+        tvars = set()
+
+        def collect(d):
+            local.add(d.name)
+            for tp in d.type_params:
+                tvars.add(tp[1])
+            for mm in d.members:
+                collect(mm)
+        for d in sf.decls:
+            collect(d)
+        imported = {n for _, n in sf.imports}
+        refs = set()
+
+        def walk(d):
+            for p in d.params or []:
+                stubparse.named_refs(p.type, refs)
+            for _, t in d.results:
+                stubparse.named_refs(t, refs)
+            stubparse.named_refs(d.type, refs)
+            for s in d.supers:
+                stubparse.named_refs(s, refs)
+            for tp in d.type_params:
+                stubparse.named_refs(tp[2], refs)
+            for mm in d.members:
+                walk(mm)
+        for d in sf.decls:
+            walk(d)
+        for r in sorted(refs):
+            if r in builtin or r in local or r in imported or r in tvars:
+                continue
+            ctx.oracle_failure("C11", f"{path}: class {r!r} is used but neither declared nor imported there",
+                               {**base, "path": path, "name": r, "safe": safe})
+        for frm, nm in sf.imports:
+            if nm not in declared.get(frm, set()):
+                ctx.oracle_failure("C11", f"{path}: 'from {frm} import {nm}' does not resolve to a generated declaration",
+                                   {**base, "path": path, "import": f"{frm}.{nm}", "safe": safe})
